@@ -179,6 +179,7 @@ func run(t *rapid.T, prop string) {
 		saved := append([]*fam.Member{}, w.Members...)
 		s := core.NewSched(core.Sequential{})
 		setYieldHook(s.Yield)
+		setLockBlocker(s.Block)
 		fam.Atomic = s.Atomic
 		for c := 0; c < nclients; c++ {
 			c := c
@@ -210,6 +211,10 @@ func run(t *rapid.T, prop string) {
 	const stepCap = 3_000_000
 	s.MaxSteps = stepCap
 	setYieldHook(s.Yield)
+	// waiting for a (cooperative) lock parks the task; only a task can wait:
+	// harness code never calls into qframe while a parked task holds a lock
+	// (see locksHeld below), and Sched.Block panics outside a task
+	setLockBlocker(s.Block)
 	fam.Atomic = s.Atomic
 	defer func() {
 		setYieldHook(nil)
@@ -251,8 +256,8 @@ func run(t *rapid.T, prop string) {
 				busy++
 			}
 		}
-		if busy == 0 {
-			return
+		if busy == 0 || locksHeld() > 0 {
+			return // nothing in flight, or a parked task is inside a critical section
 		}
 		inOpSites[siteName(tk.Site)]++
 		if desc.Kind == "pct" || sampleKey.Intn(8) == 0 {
@@ -293,6 +298,7 @@ func run(t *rapid.T, prop string) {
 			alone := core.NewSched(core.Sequential{})
 			alone.MaxSteps = stepCap / 20
 			setYieldHook(alone.Yield)
+			setLockBlocker(alone.Block)
 			fam.Atomic = alone.Atomic
 			alone.Go("alone", func() { safeRun(ex) })
 			finished := alone.Run()
@@ -304,6 +310,12 @@ func run(t *rapid.T, prop string) {
 			}
 		}
 		core.Probe("step-cap-reached-by-long-operations")
+		return
+	}
+	if !ok && s.Deadlock && !violated {
+		if prop == "C11" {
+			core.Violation(t, "C11:liveness:deadlock", "every remaining client waits for a lock that another waiting client holds", tr)
+		}
 		return
 	}
 	if !ok {
@@ -385,6 +397,41 @@ func run(t *rapid.T, prop string) {
 	}
 	if !checkI1("after the alone re-runs") {
 		report("after-alone-reruns")
+		return
+	}
+	freshCopyCheck(t, w, tr, records)
+}
+
+// freshCopyCheck: every operation again, on fresh copies of its operands
+// (rebuilt with New from their observations). State that some other
+// operation left behind on shared storage (a lazily computed cache on a
+// column, say) is not there, so a result that depends on it shows up.
+func freshCopyCheck(t *rapid.T, w *fam.World, tr *trace, records []*opRecord) {
+	copies := map[*fam.Member]*fam.Member{}
+	fresh := func(m *fam.Member) (*fam.Member, bool) {
+		if m == nil {
+			return nil, true
+		}
+		if c, ok := copies[m]; ok {
+			return c, c != m
+		}
+		c, ok := m.FreshCopy()
+		copies[m] = c
+		return c, ok
+	}
+	for _, r := range records {
+		recv, ok1 := fresh(r.ex.Recv)
+		other, _ := fresh(r.ex.Other)
+		if !ok1 {
+			continue
+		}
+		core.Probe("fresh-copy-comparisons")
+		ref := safeRun(fam.ResolveWith(w, r.ex.D, r.Client, recv, other))
+		if ref.Canon != r.conc.Canon {
+			tr.Conc, tr.Alone = clip(r.conc.Canon), clip(ref.Canon)
+			core.Violation(t, "C11:I2:differs-from-fresh-copy", fmt.Sprintf("%s (client %d) returned a different result than the same operation on a fresh copy of its operands (same observable value, untouched storage)", r.Desc, r.Client), tr)
+			return
+		}
 	}
 }
 
